@@ -88,6 +88,9 @@ static int scan_module(struct context_data *ctx, int ep, int chain)
 	m->xxo_info[0].speed = mod->spd;
 	m->xxo_info[0].bpm = mod->bpm;
 	m->xxo_info[0].gvl = mod->gvl;
+	p->scan[chain].num = 0;
+	p->scan[chain].row = 0;
+	p->scan[chain].ord = 0;
 	return 0;
     }
 
